@@ -233,6 +233,8 @@ type vC06Script struct {
 	ownSize uint16
 	ownDo   bool
 	optPos  int // 0 OPT last in Extra, 1 OPT first
+	wire    bool // try the byte path (WireReady / WriteWire) before WriteMsg, as the cache does
+	wireEDE int  // -1: none; otherwise the Extended DNS Error info code passed in WireInfo
 
 	// outputs of one run
 	tab       *vC06Tab
@@ -241,6 +243,10 @@ type vC06Script struct {
 	dn        string
 	foreign   bool // downstream's last OPT is its own and carries an option the shaper does not strip
 	extraOpt  bool // downstream carries more than one OPT and an earlier one has options
+	wireTried bool // WriteWire was called
+	blen      int  // length of the body handed to WriteWire
+	hasd      bool // WireInfo.HasDNSSEC
+	edeCoq    string
 }
 
 var vC06Cur *vC06Script
@@ -328,6 +334,16 @@ func (vC06Stub) ServeDNS(ctx context.Context, ch *middleware.Chain) {
 			m.Extra = append(m.Extra, o)
 		}
 	}
+	var wireEDE *dns.EDNS0_EDE
+	if sc.wire && sc.wireEDE >= 0 {
+		wireEDE = &dns.EDNS0_EDE{InfoCode: uint16(sc.wireEDE), ExtraText: []string{"", "cached error"}[sc.wireEDE%2]}
+		if ro := req.IsEdns0(); ro != nil {
+			// what CacheEntry.ToMsg does to restore a stored EDE on the Msg path
+			o := &dns.OPT{Hdr: dns.RR_Header{Name: ".", Rrtype: dns.TypeOPT, Class: ro.UDPSize()}}
+			o.Option = append(o.Option, wireEDE)
+			m.Extra = append(m.Extra, o)
+		}
+	}
 	switch sc.optMode {
 	case 1:
 		if o := req.IsEdns0(); o != nil {
@@ -375,6 +391,45 @@ func (vC06Stub) ServeDNS(ctx context.Context, ch *middleware.Chain) {
 		}
 	}
 	sc.dn = sc.tab.absMsg(m, alias)
+	sc.wireTried = false
+	if sc.wire {
+		if ww, ok := ch.Writer.(middleware.WireWriter); ok {
+			if capab, ready := ww.WireReady(); ready {
+				nb := m.Copy()
+				var ex []dns.RR
+				for _, rr := range nb.Extra {
+					if _, isOpt := rr.(*dns.OPT); !isOpt {
+						ex = append(ex, rr)
+					}
+				}
+				nb.Extra = ex
+				nb.Compress = true
+				if body, err := nb.Pack(); err == nil {
+					hasd := false
+					if len(nb.Question) == 0 || nb.Question[0].Qtype != dns.TypeRRSIG {
+						for _, rr := range append(append([]dns.RR{}, nb.Answer...), nb.Ns...) {
+							switch rr.(type) {
+							case *dns.RRSIG, *dns.NSEC, *dns.NSEC3:
+								hasd = true
+							}
+						}
+					}
+					info := middleware.WireInfo{Rcode: m.Rcode, AuthenticatedData: m.AuthenticatedData, HasDNSSEC: hasd}
+					sc.edeCoq = "None"
+					if wireEDE != nil {
+						info.HasEDE, info.EDECode, info.EDEText = true, wireEDE.InfoCode, wireEDE.ExtraText
+						sc.edeCoq = "(Some (" + vC06AbsEopt(wireEDE) + "))"
+					}
+					sc.wireTried, sc.blen, sc.hasd = true, len(body), hasd
+					buf := make([]byte, len(body), len(body)+capab.Reserve+64)
+					copy(buf, body)
+					if err := ww.WriteWire(buf, info); err == nil {
+						return
+					}
+				}
+			}
+		}
+	}
 	_ = ch.Writer.WriteMsg(m)
 }
 
@@ -688,6 +743,28 @@ func vC06GenQuery(r *rand.Rand) *vC06Q {
 			q.Extra = append([]dns.RR{x}, q.Extra...)
 		}
 	}
+	// one record too many in a section (well-formed packet, counts the accept table refuses)
+	switch r.Intn(90) {
+	case 0:
+		x1, _ := dns.NewRR("add1.example.com. 30 IN A 192.0.2.57")
+		x2, _ := dns.NewRR("add2.example.com. 30 IN A 192.0.2.58")
+		q.Extra = append([]dns.RR{x1, x2}, q.Extra...)
+		if len(q.Extra) == 2 {
+			x3, _ := dns.NewRR("add3.example.com. 30 IN A 192.0.2.59")
+			q.Extra = append(q.Extra, x3)
+		}
+		if len(q.Extra) > 3 {
+			q.Extra = q.Extra[len(q.Extra)-3:]
+		}
+	case 1:
+		x1, _ := dns.NewRR("ans1.example.com. 30 IN A 192.0.2.57")
+		x2, _ := dns.NewRR("ans2.example.com. 30 IN A 192.0.2.58")
+		q.Answer = append(q.Answer, x1, x2)
+	case 2:
+		x1, _ := dns.NewRR("example.com. 30 IN NS ns1.example.com.")
+		x2, _ := dns.NewRR("example.com. 30 IN NS ns2.example.com.")
+		q.Ns = append(q.Ns, x1, x2)
+	}
 	if r.Intn(30) == 0 {
 		x, _ := dns.NewRR("ans.example.com. 30 IN A 192.0.2.56")
 		q.Answer = append(q.Answer, x)
@@ -784,6 +861,15 @@ func vC06GenScript(r *rand.Rand) *vC06Script {
 	if r.Intn(8) == 0 {
 		sc.optPos = 1
 	}
+	sc.wireEDE = -1
+	if r.Intn(4) == 0 {
+		// a cache hit served from stored bytes: no OPT of its own, maybe a stored EDE
+		sc.wire = true
+		sc.optMode = 0
+		if r.Intn(3) == 0 {
+			sc.wireEDE = r.Intn(25)
+		}
+	}
 	if sc.optMode == 1 {
 		// the resolver adds an Extended DNS Error to the OPT it re-attaches
 		if r.Intn(3) == 0 {
@@ -806,6 +892,21 @@ func vC06GenScript(r *rand.Rand) *vC06Script {
 }
 
 // ---------------------------------------------------------------- the test
+
+// vC06Limit is max(512, min(advertised, 1232)) for a decoded query.
+func vC06Limit(q *dns.Msg) int {
+	limit := 512
+	if o := q.IsEdns0(); o != nil {
+		limit = int(o.UDPSize())
+		if limit < 512 {
+			limit = 512
+		}
+		if limit > 1232 {
+			limit = 1232
+		}
+	}
+	return limit
+}
 
 func vC06AbsHeader(raw []byte) string {
 	if len(raw) < 12 {
@@ -847,16 +948,7 @@ func TestVerifC06Server(t *testing.T) {
 
 		// boundary tuning of the filler on UDP: aim the shaped length at limit-1 / limit / limit+1
 		if tr == vC06UDP && bodyOK && sc.write && r.Intn(3) == 0 {
-			limit := 512
-			if o := body.IsEdns0(); o != nil {
-				limit = int(o.UDPSize())
-				if limit < 512 {
-					limit = 512
-				}
-				if limit > 1232 {
-					limit = 1232
-				}
-			}
+			limit := vC06Limit(body)
 			target := limit + r.Intn(3) - 1
 			if sc.fill == 0 {
 				sc.fill = 10
@@ -883,10 +975,11 @@ func TestVerifC06Server(t *testing.T) {
 		}
 		// the real run
 		sc.tab = tab
-		sc.called, sc.dn, sc.foreign, sc.undecoded, sc.extraOpt = false, "", false, false, false
+		sc.called, sc.dn, sc.foreign, sc.undecoded, sc.extraOpt, sc.wireTried = false, "", false, false, false, false
 		vC06Cur = sc
 		reply := env.run(tr, ci, append([]byte(nil), raw...), client, qid)
 		called, dn, foreign, strict, extraOpt := sc.called, sc.dn, sc.foreign, sc.undecoded, sc.extraOpt
+		wireTried, blen, hasd, edeWire := sc.wireTried, sc.blen, sc.hasd, sc.edeCoq
 		// the length oracle
 		ulen, clen := 0, 0
 		if tr == vC06UDP && bodyOK {
@@ -936,7 +1029,10 @@ func TestVerifC06Server(t *testing.T) {
 		cfgCoq := fmt.Sprintf("(mk_cfg %s %s %s)", nsidCoq, cookieCoq, ecsCoq)
 
 		var coq string
-		if tr == vC06UDP || tr == vC06TCP {
+		if (tr == vC06UDP || tr == vC06TCP) && wireTried {
+			coq = fmt.Sprintf("CaseWire %s %s (%s) %s %s %s %s %s %d %d %s %d %d", vC06TrName[tr], cfgCoq, vC06AbsHeader(raw), bodyCoq, vC06B(strict), dnCoq,
+				vC06B(hasd), edeWire, blen, clen, obsCoq, len(reply), oulen)
+		} else if tr == vC06UDP || tr == vC06TCP {
 			coq = fmt.Sprintf("CaseRaw %s %s (%s) %s %s %s %d %s %d %d", vC06TrName[tr], cfgCoq, vC06AbsHeader(raw), bodyCoq, vC06B(strict), dnCoq, clen, obsCoq, len(reply), oulen)
 		} else if !bodyOK {
 			// DoH answers HTTP 400 / the DoQ handler closes the connection: no DNS reply to judge
@@ -977,21 +1073,34 @@ func TestVerifC06Server(t *testing.T) {
 				k += "-strict"
 			}
 		}
+		if wireTried {
+			k += "-wire"
+		}
 		fkey := ""
-		relax := false
+		relax := 0
 		if !called && obs != nil && obs.Rcode == dns.RcodeBadVers && ecsCoq != "None" {
 			// F10: the BADVERS reply carries the request's additional section, forwarded ECS included
 			fkey = "badvers-ecs-reflected"
 			k += "-ecs"
+			relax = 3
+			if tr == vC06UDP && len(reply) > vC06Limit(body) {
+				relax = 7
+			}
+		} else if !called && obs != nil && obs.Rcode == dns.RcodeBadVers && tr == vC06UDP && len(reply) > vC06Limit(body) {
+			// F11: the BADVERS reply carries the request's other additional records and ignores the negotiated size
+			fkey = "badvers-reply-oversize"
+			k += "-oversize"
+			relax = 4
 		} else if called && extraOpt && gq.hasOpt && obs != nil {
 			// F5b: a second OPT of the downstream response is relayed untouched
 			fkey = "edns-extra-opt-relayed"
 			k += "-extraopt"
+			relax = 3
 		} else if called && foreign && gq.hasOpt && obs != nil {
 			// F5: the options of the downstream response's own OPT are relayed
 			fkey = "edns-foreign-option-relayed"
 			k += "-foreignopt"
-			relax = true
+			relax = 1
 		}
 		nontrivial := !(called && !gq.hasOpt && sc.optMode == 0 && len(sc.ns) == 0)
 		rec := map[string]any{
@@ -1007,9 +1116,9 @@ func TestVerifC06Server(t *testing.T) {
 		}
 		b, _ := json.Marshal(rec)
 		f.Write(append(b, '\n'))
-		if relax && coq != "" {
+		if relax != 0 && coq != "" {
 			// the same input judged without the clause the known finding breaks
-			rec2 := map[string]any{"k": k + "-relaxed", "coq": "CaseRelax (" + coq + ")", "nontrivial": false, "desc": rec["desc"]}
+			rec2 := map[string]any{"k": k + "-relaxed", "coq": fmt.Sprintf("CaseRelax %d (%s)", relax, coq), "nontrivial": false, "desc": rec["desc"]}
 			b2, _ := json.Marshal(rec2)
 			f.Write(append(b2, '\n'))
 		}
